@@ -145,7 +145,13 @@ match: contains("SHOP")
 category: Shopping
 priority: 30
 '''
+# (a file the loader rejects: its expression uses a construct outside the language, next to an ordinary regex escape; it is
+#  rejected the second time it is loaded exactly as it is the first time)
 RBAD = '''[Coffee]
+match: regex("ALFA\\s+STORE") and description in ["x", "APLPAY ALFA STORE #123"]
+category: Food
+
+[Bare]
 category: Food
 '''
 # The CSV files carry the same NUMBER of rules and the same merchant NAMES, in the same order, as R1 resp. R2 (the natural case: the
@@ -235,6 +241,9 @@ EXPRS = {
     'e12': 'regex("shop \\\\D") or regex("STORE \\\\s\\\\D")',
     'e13': 'extract("(\\\\w+)$")',
     'e14': 'extract("(\\\\W+)$")',
+    # outside the language (keyword argument, list display) next to a regex escape: refused every time it is evaluated
+    'e15': 'regex("ALFA\\\\s+STORE") and round(amount, ndigits=0) == 50',
+    'e16': 'regex("ALFA\\\\s+STORE") and amount in [50.0, 5.0]',
 }
 
 
